@@ -32,6 +32,10 @@ class CellSpanningTree(SpanningTree):
         self.edges = []
 
     def compute(self):
+        # start from empty tables: compute() can be called more than once
+        self.parent = [None]*len(self.mesh.cells)
+        self.children = [[] for v in self.mesh.id_cells]
+        self.edges = []
         dist_to_root = [float("inf") for v in self.mesh.id_cells]
         seen = [False for _ in self.mesh.id_cells]
         queue = deque()
@@ -91,6 +95,9 @@ class CellSpanningForest(SpanningForest):
         super().__init__(mesh)
 
     def compute(self) -> None : 
+        # start from an empty forest: compute() can be called more than once
+        self.trees = []
+        self.roots = []
         visited = [False]*len(self.mesh.cells)
         for c in self.mesh.id_cells:
             if not visited[c]:
